@@ -223,4 +223,130 @@ theorem fromAssertion_nat (H : Refines O p ok val T) {n : ℕ} (hn : n < 2 ^ 64)
         simp only [mapDiv, List.map_cons, List.map_nil, h2]
         rfl
 
+-- ------------------------------------------------------------------ boundary constraints
+theorem polyEval_nat (H : Refines O p ok val T) (poly : List ℕ) (hp : ∀ v ∈ poly, ok v) (x : ℕ) (hx : ok x) :
+    ok (polyEval O poly x) ∧ val (polyEval O poly x) = polyEval (absOps O val) (poly.map val) (val x) := by
+  have := foldr_rel (ok := ok) (val := val) (fun c acc => O.add (O.mul acc x) c)
+    (fun c acc => acc * val x + c)
+    (fun b acc hb hacc => by
+      obtain ⟨h1, h2⟩ := H.mul _ _ hacc hx
+      obtain ⟨h3, h4⟩ := H.add _ _ h1 hb
+      exact ⟨h3, by rw [h4, h2]⟩)
+    poly hp O.zero H.zero.1
+  rw [H.zero.2] at this
+  exact this
+
+theorem interpolate_nat (H : Refines O p ok val T) (vs : List ℕ) (hvs : ∀ v ∈ vs, ok v)
+    (hm : vs.length < 2 ^ 64) {w : ℕ} (hw : O.root (Nat.log2 vs.length) = some w) (hwok : ok w) :
+    ∃ poly, interpolate O vs = some poly ∧ (∀ v ∈ poly, ok v) ∧
+      interpolate (absOps O val) (vs.map val) = some (poly.map val) := by
+  obtain ⟨hn1, hn2⟩ := H.ofNat vs.length hm
+  obtain ⟨minv, hminv, hminvok, hminvval⟩ := H.div _ _ H.one.1 hn1
+  have hr : (absOps O val).root (Nat.log2 vs.length) = some (val w) := by
+    show (O.root (Nat.log2 vs.length)).map val = _
+    rw [hw]; rfl
+  have hd : (absOps O val).div (absOps O val).one ((absOps O val).ofNat vs.length) = some (val minv) := by
+    show some ((1 : ZMod p) / (vs.length : ZMod p)) = _
+    rw [hminvval, H.one.2, hn2]
+  -- one coefficient
+  have hcoef : ∀ k, ok (O.mul (vs.zipIdx.foldl (fun acc (t : ℕ × ℕ) =>
+        O.add acc (O.mul t.1 (O.pow w ((vs.length - (t.2 * k) % vs.length) % vs.length)))) O.zero) minv) ∧
+      val (O.mul (vs.zipIdx.foldl (fun acc (t : ℕ × ℕ) =>
+        O.add acc (O.mul t.1 (O.pow w ((vs.length - (t.2 * k) % vs.length) % vs.length)))) O.zero) minv)
+      = ((vs.map val).zipIdx.foldl (fun acc (t : ZMod p × ℕ) =>
+        acc + t.1 * (val w) ^ ((vs.length - (t.2 * k) % vs.length) % vs.length)) 0) * val minv := by
+    intro k
+    have := foldl_rel (ok := ok) (val := val)
+      (fun acc (t : ℕ × ℕ) => O.add acc (O.mul t.1 (O.pow w ((vs.length - (t.2 * k) % vs.length) % vs.length))))
+      (fun acc (t : ZMod p × ℕ) => acc + t.1 * (val w) ^ ((vs.length - (t.2 * k) % vs.length) % vs.length))
+      (Prod.map val id) (fun t => ok t.1)
+      (fun acc t hacc ht => by
+        have he : (vs.length - (t.2 * k) % vs.length) % vs.length < 2 ^ 64 :=
+          Nat.lt_of_le_of_lt (Nat.le_trans (Nat.mod_le _ _) (Nat.sub_le _ _)) hm
+        obtain ⟨h1, h2⟩ := H.pow w _ hwok he
+        obtain ⟨h3, h4⟩ := H.mul _ _ ht h1
+        obtain ⟨h5, h6⟩ := H.add _ _ hacc h3
+        exact ⟨h5, by rw [h6, h4, h2]; rfl⟩)
+      vs.zipIdx (fun t ht => hvs _ (List.fst_mem_of_mem_zipIdx ht)) O.zero H.zero.1
+    rw [H.zero.2, List.map_zipIdx] at this
+    obtain ⟨h1, h2⟩ := H.mul _ _ this.1 hminvok
+    exact ⟨h1, by rw [h2, this.2]⟩
+  refine ⟨(List.range vs.length).map (fun k => O.mul (vs.zipIdx.foldl (fun acc (t : ℕ × ℕ) =>
+        O.add acc (O.mul t.1 (O.pow w ((vs.length - (t.2 * k) % vs.length) % vs.length)))) O.zero) minv),
+    ?_, ?_, ?_⟩
+  · unfold interpolate
+    simp only [hw, hminv]
+  · intro v hv
+    simp only [List.mem_map, List.mem_range] at hv
+    obtain ⟨k, _, rfl⟩ := hv
+    exact (hcoef k).1
+  · unfold interpolate
+    simp only [List.length_map, hr, hd, List.map_map]
+    congr 1
+    apply List.map_congr_left
+    intro k _
+    exact ((hcoef k).2).symm
+
+def okC (ok : ℕ → Prop) (c : BConstraint ℕ) : Prop := (∀ v ∈ c.poly, ok v) ∧ ok c.offsetElem
+
+def mapC (val : ℕ → ZMod p) (c : BConstraint ℕ) : BConstraint (ZMod p) :=
+  ⟨c.column, c.poly.map val, c.offsetSteps, val c.offsetElem⟩
+
+theorem bcNew_nat (H : Refines O p ok val T) (a : Assertion ℕ) (hvs : ∀ v ∈ a.values, ok v)
+    (hm : a.values.length < 2 ^ 64) (hf : a.first < 2 ^ 64)
+    (hw : 1 < a.values.length → ∃ w, O.root (Nat.log2 a.values.length) = some w ∧ ok w)
+    (invG : ℕ) (hinv : ok invG) :
+    ∃ c, BConstraint.new O a invG = some c ∧ okC ok c ∧
+      BConstraint.new (absOps O val) (mapA val a) (val invG) = some (mapC val c) := by
+  unfold BConstraint.new
+  have hlen : (mapA val a).values.length = a.values.length := by simp [mapA]
+  rw [hlen]
+  by_cases h1 : a.values.length > 1
+  · obtain ⟨w, hw, hwok⟩ := hw h1
+    obtain ⟨poly, hp, hpok, hp'⟩ := interpolate_nat H a.values hvs hm hw hwok
+    have hp'' : interpolate (absOps O val) (mapA val a).values = some (poly.map val) := hp'
+    simp only [if_pos h1, hp, hp'']
+    have hfirst : (mapA val a).first = a.first := rfl
+    rw [hfirst]
+    by_cases h0 : a.first ≠ 0
+    · simp only [if_pos h0]
+      obtain ⟨h2, h3⟩ := H.pow invG a.first hinv hf
+      refine ⟨_, rfl, ⟨hpok, h2⟩, ?_⟩
+      simp only [mapC, h3]
+      rfl
+    · simp only [if_neg h0]
+      refine ⟨_, rfl, ⟨hpok, H.one.1⟩, ?_⟩
+      simp only [mapC, H.one.2]
+      rfl
+  · simp only [if_neg h1]
+    refine ⟨_, rfl, ⟨hvs, H.one.1⟩, ?_⟩
+    simp only [mapC, H.one.2]
+    rfl
+
+theorem bcValue_nat (H : Refines O p ok val T) (c : BConstraint ℕ) (hc : okC ok c) (x : ℕ) (hx : ok x) :
+    ok (c.value O x) ∧ val (c.value O x) = (mapC val c).value (absOps O val) (val x) := by
+  obtain ⟨hm1, hm2⟩ := H.mul x c.offsetElem hx hc.2
+  have hpoly := polyEval_nat H c.poly hc.1 (O.mul x c.offsetElem) hm1
+  rw [hm2] at hpoly
+  unfold BConstraint.value
+  match hp : c.poly with
+  | [] =>
+    rw [hp] at hpoly
+    simp only [mapC, hp, List.map_nil]
+    exact hpoly
+  | [v] =>
+    simp only [mapC, hp, List.map_cons, List.map_nil]
+    exact ⟨hc.1 v (by rw [hp]; simp), trivial⟩
+  | v1 :: v2 :: rest =>
+    rw [hp] at hpoly
+    simp only [mapC, hp, List.map_cons]
+    exact hpoly
+
+theorem bcEvalAt_nat (H : Refines O p ok val T) (c : BConstraint ℕ) (hc : okC ok c) (x t : ℕ) (hx : ok x)
+    (ht : ok t) :
+    ok (c.evalAt O x t) ∧ val (c.evalAt O x t) = (mapC val c).evalAt (absOps O val) (val x) (val t) := by
+  obtain ⟨h1, h2⟩ := bcValue_nat H c hc x hx
+  obtain ⟨h3, h4⟩ := H.sub t _ ht h1
+  exact ⟨h3, by unfold BConstraint.evalAt; rw [h4, h2]; rfl⟩
+
 end WinterProofs.C16L
